@@ -755,6 +755,17 @@ func init() {
 					add(mode, "", 2, 2, "0")
 				}
 			}
+			// the same while a keyboard macro is being recorded and then called: the keys that
+			// start, end and call the macro are two-byte sequences that may be split as well
+			for _, k := range []int{1, 2} {
+				if k == 2 && tier != "thorough" {
+					continue
+				}
+				j := mkJob(".ZZ_C05_Chunks", ".ZZSetup_TwoShells", "mode", "emacs", "pre", "\x18(", "k", itoa(k), "n", "1", "co", "0", "post", "\x18)\x18e\r", "alpha", "print")
+				j.Stubs = paintStubs
+				j.Reach = []string{"both-ran"}
+				jobs = append(jobs, j)
+			}
 			return jobs
 		},
 		Assumptions: append([]string{
